@@ -1,0 +1,96 @@
+//go:build verif
+
+// Contracts for the contract-based verification in /verif (comment-only file).
+
+package path
+
+//@ # ---- abstract keyed hash (hash.Hash) : state is a ghost map, digest is uninterpreted (A7)
+//@ ghost var hashSt map[hash.Hash]uint64
+//@ spec func hkey(h hash.Hash) uint64 uninterpreted
+//@ spec func stInit() uint64 uninterpreted
+//@ spec func stAbsorb16(s uint64, b0 uint8, b1 uint8, b2 uint8, b3 uint8, b4 uint8, b5 uint8, b6 uint8, b7 uint8, b8 uint8, b9 uint8, b10 uint8, b11 uint8, b12 uint8, b13 uint8, b14 uint8, b15 uint8) uint64 uninterpreted
+//@ spec func digestByte(key uint64, s uint64, i int) uint8 uninterpreted
+
+//@ iface hash.Hash.Reset
+//@   modifies hashSt
+//@   ensures hashSt[self] == stInit()
+
+//@ iface hash.Hash.Write
+//@   requires len(p) == 16
+//@   modifies hashSt
+//@   ensures err == nil && n == 16
+//@   ensures hashSt[self] == stAbsorb16(old(hashSt[self]), p[0], p[1], p[2], p[3], p[4], p[5], p[6], p[7], p[8], p[9], p[10], p[11], p[12], p[13], p[14], p[15])
+
+//@ iface hash.Hash.Sum
+//@   modifies b[:]
+//@   ensures len(result) == len(b)+16
+//@   ensures forall i int :: 0 <= i && i < 16 ==> result[len(b)+i] == digestByte(hkey(self), hashSt[self], i)
+
+//@ # the documented MAC input block (scion-header.rst, "Hop Field MAC computation")
+//@ spec func hopMacSt(segID uint16, ts uint32, exp uint8, in uint16, eg uint16) uint64 = stAbsorb16(stInit(), 0, 0, uint8(segID>>8), uint8(segID), uint8(ts>>24), uint8(ts>>16), uint8(ts>>8), uint8(ts), 0, exp, uint8(in>>8), uint8(in), uint8(eg>>8), uint8(eg), 0, 0)
+//@ spec func macByte(key uint64, segID uint16, ts uint32, exp uint8, in uint16, eg uint16, i int) uint8 = digestByte(key, hopMacSt(segID, ts, exp, in, eg), i)
+
+//@ func MACInput
+//@   props C01 C04
+//@   requires len(buffer) >= 16
+//@   modifies buffer[:]
+//@   ensures buffer[0] == 0 && buffer[1] == 0 && buffer[2] == uint8(segID>>8) && buffer[3] == uint8(segID)
+//@   ensures buffer[4] == uint8(timestamp>>24) && buffer[5] == uint8(timestamp>>16) && buffer[6] == uint8(timestamp>>8) && buffer[7] == uint8(timestamp)
+//@   ensures buffer[8] == 0 && buffer[9] == expTime && buffer[10] == uint8(consIngress>>8) && buffer[11] == uint8(consIngress)
+//@   ensures buffer[12] == uint8(consEgress>>8) && buffer[13] == uint8(consEgress) && buffer[14] == 0 && buffer[15] == 0
+//@   ensures forall i int :: 16 <= i && i < len(buffer) ==> buffer[i] == old(buffer[i])
+
+//@ func FullMAC
+//@   props C01 C04 C12
+//@   requires h != nil && (len(buffer) == 16 || len(buffer) < 16)
+//@   modifies buffer[:], hashSt
+//@   ensures len(result) == 16
+//@   ensures forall i int :: 0 <= i && i < 16 ==> result[i] == macByte(hkey(h), info.SegID, info.Timestamp, hf.ExpTime, hf.ConsIngress, hf.ConsEgress, i)
+
+//@ func MAC
+//@   props C01 C04 C12
+//@   requires h != nil && (len(buffer) == 16 || len(buffer) < 16)
+//@   modifies buffer[:], hashSt
+//@   ensures forall i int :: 0 <= i && i < 6 ==> result[i] == macByte(hkey(h), info.SegID, info.Timestamp, hf.ExpTime, hf.ConsIngress, hf.ConsEgress, i)
+
+//@ # every protected value reaches the MAC input: the documented block is injective in the five values
+//@ lemma macInputInjective C04: forall s1 uint16, t1 uint32, e1 uint8, i1 uint16, g1 uint16, s2 uint16, t2 uint32, e2 uint8, i2 uint16, g2 uint16 :: (uint8(s1>>8) == uint8(s2>>8) && uint8(s1) == uint8(s2) && uint8(t1>>24) == uint8(t2>>24) && uint8(t1>>16) == uint8(t2>>16) && uint8(t1>>8) == uint8(t2>>8) && uint8(t1) == uint8(t2) && e1 == e2 && uint8(i1>>8) == uint8(i2>>8) && uint8(i1) == uint8(i2) && uint8(g1>>8) == uint8(g2>>8) && uint8(g1) == uint8(g2)) ==> (s1 == s2 && t1 == t2 && e1 == e2 && i1 == i2 && g1 == g2)
+
+//@ func (*HopField).DecodeFromBytes
+//@   props C18 C01 C07
+//@   modifies *h
+//@   ensures (err == nil) == (len(raw) >= 12)
+//@   ensures err == nil ==> h.EgressRouterAlert == (raw[0]&1 == 1) && h.IngressRouterAlert == (raw[0]&2 == 2) && h.ExpTime == raw[1]
+//@   ensures err == nil ==> h.ConsIngress == uint16(raw[2])<<8|uint16(raw[3]) && h.ConsEgress == uint16(raw[4])<<8|uint16(raw[5])
+//@   ensures err == nil ==> forall i int :: 0 <= i && i < 6 ==> h.Mac[i] == raw[6+i]
+
+//@ func (*HopField).SerializeTo
+//@   props C18 C07
+//@   modifies b[:]
+//@   ensures (err == nil) == (len(b) >= 12)
+//@   ensures err == nil ==> b[0] == ite(h.EgressRouterAlert, 1, 0)|ite(h.IngressRouterAlert, 2, 0) && b[1] == h.ExpTime
+//@   ensures err == nil ==> b[2] == uint8(h.ConsIngress>>8) && b[3] == uint8(h.ConsIngress) && b[4] == uint8(h.ConsEgress>>8) && b[5] == uint8(h.ConsEgress)
+//@   ensures err == nil ==> forall i int :: 0 <= i && i < 6 ==> b[6+i] == h.Mac[i]
+//@   ensures forall i int :: 12 <= i && i < len(b) ==> b[i] == old(b[i])
+
+//@ func (*InfoField).DecodeFromBytes
+//@   props C18 C01 C07
+//@   modifies *inf
+//@   ensures (err == nil) == (len(raw) >= 8)
+//@   ensures err == nil ==> inf.ConsDir == (raw[0]&1 == 1) && inf.Peer == (raw[0]&2 == 2)
+//@   ensures err == nil ==> inf.SegID == uint16(raw[2])<<8|uint16(raw[3])
+//@   ensures err == nil ==> inf.Timestamp == uint32(raw[4])<<24|uint32(raw[5])<<16|uint32(raw[6])<<8|uint32(raw[7])
+
+//@ func (*InfoField).SerializeTo
+//@   props C18 C07
+//@   modifies b[:]
+//@   ensures (err == nil) == (len(b) >= 8)
+//@   ensures err == nil ==> b[0] == ite(inf.ConsDir, 1, 0)|ite(inf.Peer, 2, 0) && b[1] == 0
+//@   ensures err == nil ==> b[2] == uint8(inf.SegID>>8) && b[3] == uint8(inf.SegID)
+//@   ensures err == nil ==> b[4] == uint8(inf.Timestamp>>24) && b[5] == uint8(inf.Timestamp>>16) && b[6] == uint8(inf.Timestamp>>8) && b[7] == uint8(inf.Timestamp)
+//@   ensures forall i int :: 8 <= i && i < len(b) ==> b[i] == old(b[i])
+
+//@ func (*InfoField).UpdateSegID
+//@   props C22 C01
+//@   modifies inf.SegID
+//@   ensures inf.SegID == old(inf.SegID)^(uint16(hfMac[0])<<8|uint16(hfMac[1]))
